@@ -19,11 +19,14 @@ var suites = map[string]func(tier string) []*families.Case{
 	"f17":  func(tier string) []*families.Case {
 		return append(families.F17(4, []string{"", "is", "n", "nis"}), families.F18(6, []string{"", "is"})...)
 	},
+	"f23":  func(tier string) []*families.Case { return families.F23([]string{"", "s", "is"}) },
+	"f22":  func(tier string) []*families.Case { return families.F22([]string{"", "is"}, tier == "thorough") },
+	"f21":  func(tier string) []*families.Case { return families.F21(3, []string{"", "s", "is", "ns"}) },
 	"f20":  func(tier string) []*families.Case { return families.F20(3, []string{"", "is"}) },
 	"f4":   func(tier string) []*families.Case { return families.F4(3, []string{"", "s", "n"}) },
 	"f19":  func(tier string) []*families.Case { return families.F19(2, []string{"", "s"}) },
 	"f4l":  func(tier string) []*families.Case { return families.F4L(2, []string{"", "s"}) },
-	"f2d2": func(tier string) []*families.Case { return families.F2D(2, 13, 4, []string{"", "s", "is"}) },
+	"f2d2": func(tier string) []*families.Case { return families.F2D(2, 15, 4, []string{"", "s", "is", "ns"}) },
 	"f16":  func(tier string) []*families.Case { return families.F16(4, []string{"", "i", "is"}) },
 	"nc":   func(tier string) []*families.Case { return families.NestedCaptures(5, []string{"", "n", "nis"}) },
 	"f7":   func(tier string) []*families.Case { return families.F7(3, 3, []string{"", "is"}) },
@@ -47,13 +50,13 @@ func histSuite(tier string) []*families.Case {
 		src := append(pick(families.F5(0, nil), 24), pick(families.F6(4, 0, nil), 16)...)
 		src = append(src, pick(families.F3(0, nil), 12)...)
 		src = append(src, families.F18(0, nil)...) // multi-line text: error positions after a Reset
-		cs = append(cs, families.Hist(src, 4, 7, []int{-1, 1, 1 << 15}, us, []string{"", "is"})...)
+		cs = append(cs, families.Hist(src, 4, 7, []int{-1, 1, 3, 1 << 15}, us, []string{"", "is"})...)
 		cs = append(cs, families.LongInputs([]string{"", "is"})...)
 	} else {
 		src := append(pick(families.F5(0, nil), 10), pick(families.F6(4, 0, nil), 6)...)
 		src = append(src, pick(families.F3(0, nil), 4)...)
 		src = append(src, families.F18(0, nil)...) // multi-line text: error positions after a Reset
-		cs = append(cs, families.Hist(src, 3, 6, []int{-1, 1, 1 << 15}, us, []string{"", "is"})...)
+		cs = append(cs, families.Hist(src, 3, 6, []int{-1, 1, 3, 1 << 15}, us, []string{"", "is"})...)
 		cs = append(cs, families.LongInputs([]string{""})...)
 	}
 	return cs
@@ -79,7 +82,7 @@ func behSuite(tier string) []*families.Case {
 		cs = append(cs, families.F2(3, 22, []string{"plain"}, false, 3, []string{"", "s", "is"})...)
 		cs = append(cs, families.F2(3, 8, []string{"plain", "star", "after", "peek", "outer"}, true, 3, []string{"", "s", "is", "ns"})...)
 		cs = append(cs, families.F2(4, 8, []string{"plain"}, false, 3, []string{"", "s"})...)
-		cs = append(cs, families.F2D(3, 13, 3, []string{"", "s", "is", "ns"})...)
+		cs = append(cs, families.F2D(3, 15, 3, []string{"", "s", "is", "ns"})...)
 		cs = append(cs, families.F2D(4, 6, 3, []string{"", "s"})...)
 		cs = append(cs, families.F3(4, spec.AllVariants)...)
 		cs = append(cs, families.F4(3, spec.AllVariants)...)
@@ -99,6 +102,9 @@ func behSuite(tier string) []*families.Case {
 		cs = append(cs, families.F17(5, spec.AllVariants)...)
 		cs = append(cs, families.F19(2, []string{"", "s", "is", "ns"})...)
 		cs = append(cs, families.F20(4, []string{"", "is"})...)
+		cs = append(cs, families.F21(4, spec.AllVariants)...)
+		cs = append(cs, families.F22([]string{"", "is", "n"}, true)...)
+		cs = append(cs, families.F23([]string{"", "s", "is", "ns"})...)
 		cs = append(cs, families.F18(7, []string{"", "is"})...)
 		h := append(families.F1(1, 3, 0, nil), families.F4(0, nil)...)
 		h = append(h, families.F7(2, 0, nil)...)
@@ -107,7 +113,7 @@ func behSuite(tier string) []*families.Case {
 		cs = append(cs, families.F1(1, 3, 3, []string{"", "i", "s", "is", "n", "nis"})...)
 		cs = append(cs, families.F2(3, 8, []string{"plain"}, false, 3, []string{"", "is"})...)
 		cs = append(cs, families.F2D(3, 8, 3, []string{"", "s"})...)
-		cs = append(cs, families.F2D(2, 13, 4, []string{"", "s", "is"})...)
+		cs = append(cs, families.F2D(2, 15, 4, []string{"", "s", "is", "ns"})...)
 		cs = append(cs, families.F3(3, []string{"", "is", "n"})...)
 		cs = append(cs, families.F4(3, []string{"", "s", "n"})...)
 		cs = append(cs, families.F5(4, []string{"", "is"})...)
@@ -126,7 +132,10 @@ func behSuite(tier string) []*families.Case {
 		cs = append(cs, families.F17(4, []string{"", "is", "n", "nis"})...)
 		cs = append(cs, families.F19(2, []string{"", "s"})...)
 		cs = append(cs, families.F20(3, []string{"", "is"})...)
-		cs = append(cs, families.F18(6, []string{"", "is"})...)
+		cs = append(cs, families.F21(3, []string{"", "s", "is", "ns"})...)
+		cs = append(cs, families.F22([]string{"", "is"}, false)...)
+		cs = append(cs, families.F23([]string{"", "s", "is"})...)
+		cs = append(cs, families.F18(5, []string{"", "is"})...)
 		h := append(families.F1(1, 2, 0, nil), families.F4(0, nil)[:40]...)
 		cs = append(cs, families.Hostile(h, 3, []string{"", "is"})...)
 	}
@@ -151,7 +160,7 @@ func init() {
 	reg("C06", []string{"beh", "hist"}, "some (rule, offset) pair is entered more than once by the naive evaluation (behaviour suite); a step of a history whose result differs from a fresh parser's only with memoisation (history suite)")
 	reg("C07", []string{"beh"}, "every case (verdict and eager trace are compared on all of them)")
 	reg("C08", []string{"static", "beh"}, "the option sets yield at least two different outputs for the grammar (static suite) / the variant's code differs from the plain parser's (behaviour suite, which also compiles the file)")
-	reg("C11", []string{"beh"}, "rejected input with a non-empty furthest token")
+	reg("C11", []string{"beh", "hist"}, "rejected input with a non-empty furthest token (history suite: an error token longer than 32 runes)")
 	reg("C12", []string{"hist"}, "a step executed in a configuration other than (uint32, Size unset), or inside a history")
 	reg("C13", []string{"beh", "hist", "shipped"}, "input over the hostile byte alphabet (invalid UTF-8, NUL, non-BMP, U+10FFFF)")
 }
